@@ -126,8 +126,14 @@ func genConnScn(t *rapid.T, prop string, excl map[string]bool) connScn {
 		}
 	} else if prop == "C09" {
 		s.Closers = rapid.SampledFrom([]int{0, 0, 0, 1}).Draw(t, "closers")
+		if !s.Client {
+			s.RealAccept = rapid.IntRange(0, 2).Draw(t, "realAccept") == 0
+		}
 	} else {
 		s.Closers = rapid.SampledFrom([]int{0, 0, 0, 0, 1}).Draw(t, "closers")
+		if !s.Client {
+			s.RealAccept = rapid.IntRange(0, 2).Draw(t, "realAccept") == 0
+		}
 	}
 	return s
 }
@@ -698,6 +704,9 @@ func connProperty(prop string, st *vStats) func(t *rapid.T) {
 			rep := e2Replay{Scenario: s, Strategy: o.w.strategy, Decisions: o.w.trace(), Events: o.w.names(), TraceTail: o.w.describeTrace(40)}
 			vReport(vViolation{Property: prop, Slot: "rapid:" + prop, Signature: sig, Message: msg, Replay: rep})
 			t.Fatalf("%s violated [%s]: %s\nscenario: %+v\nlast steps:\n%s", prop, sig, msg, s, o.w.describeTrace(30))
+		}
+		if s.RealAccept {
+			st.class("accepted-by-real-onAccept")
 		}
 		if o.w.count("sweep-close") > 0 {
 			st.class("sweeper-closed-idle-connection")
